@@ -312,3 +312,20 @@ func TestBuffer(t *testing.T) {
 		f.Close()
 	}
 }
+
+// TestStressFunctional: real-time functional stress of both Batcher generations (stressf.go).
+func TestStressFunctional(t *testing.T) {
+	if os.Getenv("VERIF_OUT") == "" {
+		t.Skip("VERIF_OUT not set")
+	}
+	seed := envInt("VERIF_SEED", 1)
+	d := time.Duration(envInt("VERIF_STRESS_MS", 300)) * time.Millisecond
+	v := append(StressFunctionalV2(seed, d), StressFunctionalV1(seed, d)...)
+	for _, s := range v {
+		fmt.Printf("STRESSF violation %s\n", s)
+	}
+	fmt.Printf("STRESSF violations=%d\n", len(v))
+	if len(v) > 0 {
+		t.Fatalf("%d violations under concurrent use", len(v))
+	}
+}
